@@ -7,7 +7,7 @@ translated statement by statement on top of the translated `Sequence` wrapper (`
 `barsToSeq`, … of Model/Bar.lean) that the C10 / C09 / C14 theorems are about.
 
 Representation (hand-written `Model/ElemLib.lean`): a `Bar` object is `GBar` (its `Sequence` as a wrapper state
-`Seq`, numerator, denominator, key index or `pyNone`), a `Track` is `GTrack` (bars, program), a `Composition` is
+`Seq`, numerator, denominator, key index or `pyNone`, default_channel or `pyNone`), a `Track` is `GTrack` (bars, program), a `Composition` is
 `GComposition` (tracks).  Objects are values; state changes of an object reached through a *loop or
 comprehension variable* are not written back (such code only reads: `bar.sequence`, `bar.copy()`).
 
@@ -31,7 +31,8 @@ CLASSES = {
     "Bar": {
         "file": "scoda/elements/bar.py", "lean": "GBar",
         "fields": {"sequence": ("sequence", "Seq"), "time_signature_numerator": ("num", "Int"),
-                   "time_signature_denominator": ("den", "Int"), "key_signature": ("key", "Key")},
+                   "time_signature_denominator": ("den", "Int"), "key_signature": ("key", "Key"),
+                   "default_channel": ("defaultChannel", "Int")},
         "methods": [("__init__", "barInit"), ("copy", "barCopy"), ("is_empty", "barIsEmpty"),
                     ("transpose", "barTranspose"), ("to_sequence", "barsToSequence")],
     },
